@@ -225,10 +225,73 @@ def api_oracle(res, rng):
     return nv
 
 
+def reuse_oracle(res, rng):
+    """what an editor does: the MathML the library returned (generated ids and all) is edited -- new tokens appended or put
+    in front, the content wrapped, some ids removed -- and set again, several times in one session.  Every id stays unique,
+    and an id that was on a token with a unique text stays on that token."""
+    bodies = list(X.FIXED[:10]) + [X.gen(rng, 2) for _ in range(6 if res.tier == "quick" else 80)]
+    edits = [("append", "<mo>-</mo><mi>z</mi>"), ("prepend", "<mi>w</mi><mo>=</mo>"), ("wrap", "msqrt"), ("strip", "2"), ("strip", "3"),
+             ("append", "<mfrac><mi>p</mi><mi>q</mi></mfrac>"), ("wrap", "mrow")]
+    sessions, meta = [], []
+    for b in bodies:
+        steps = [rng.choice(edits) for _ in range(rng.randint(1, 3))]
+        ops = [["set_rules_dir", C.RULES], ["set_mathml", X.math(b)]] + [["h_set_mathml_reusing_last", m, e] for m, e in steps]
+        sessions.append({"id": len(sessions), "ops": ops})
+        meta.append((b, steps))
+    nv = 0
+    for (b, steps), r in zip(meta, C.run_harness(sessions)):
+        rs = r.get("res", [])
+        if len(rs) < 2 or "ok" not in rs[1]:
+            continue
+        prev = rs[1]["ok"]
+        for (mode, extra), x in zip(steps, rs[2:]):
+            rep = {"kind": "reuse", "mathml": X.math(b), "steps": steps}
+            res.add_case(("reuse", b, mode, extra), nontrivial=True)
+            if "panic" in x:
+                res.violation("setting the returned MathML again (edited: %s %s) panics: %s" % (mode, extra, x["panic"]), rep)
+                nv += 1
+                break
+            if "ok" not in x:
+                break
+            edited, m = x["ok"]
+            ids = re.findall(r"<[A-Za-z][\w:-]*\b[^>]*?\bid='([^']*)'", m)
+            n_elems = len(re.findall(r"<[A-Za-z][\w:-]*\b", m))
+            if len(ids) != n_elems:
+                res.violation("an element of the MathML returned for the edited expression has no id", dict(rep, edited=edited, returned=m))
+                nv += 1
+                break
+            if len(set(ids)) != len(ids):
+                dup = sorted(set(i for i in ids if ids.count(i) > 1))
+                res.violation("the ids of the MathML returned for an edited copy of the previous result are not distinct: %r (edit: %s %s)" % (dup[:3], mode, extra),
+                              dict(rep, edited=edited, returned=m))
+                nv += 1
+                break
+            # ids that the edited input carries on tokens with a unique text stay on those tokens
+            moved = None
+            for tag, attrs, text in re.findall(r"<(mi|mn|mtext)\b([^>]*)>([^<]+)</\1>", edited):
+                mid = re.search(r"\bid='([^']*)'", attrs)
+                if not mid or edited.count(">%s<" % text) != 1 or edited.count("id='%s'" % mid.group(1)) != 1:
+                    continue
+                outs = re.findall(r"<(?:mi|mn|mtext|mo)\b([^>]*)>%s</" % re.escape(text), m)
+                if len(outs) == 1 and not re.search(r"\bid='%s'" % re.escape(mid.group(1)), outs[0]):
+                    moved = (mid.group(1), text)
+                    break
+            if moved:
+                res.violation("the id %r of the token %r in the edited expression is not on that token in the result (edit: %s %s)" % (moved[0], moved[1], mode, extra),
+                              dict(rep, edited=edited, returned=m))
+                nv += 1
+                break
+            prev = m
+        if nv >= 3:
+            break
+    return nv
+
+
 def run(res):
     res.rule = ("tie: seeded trees (depth 1-4) with no / some / all / duplicated author ids through the real add_ids; oracle: fixed + seeded "
                 "textbook expressions with author ids (some / all / duplicated) on tokens and 2-D elements through set_mathml, then SSML "
-                "bookmarks, navigation ids and braille routing ids; non-trivial = expressions that carry at least one author id")
+                "bookmarks, navigation ids and braille routing ids; the returned MathML edited (tokens appended / put in front, content wrapped, "
+                "ids removed) and set again 1-3 times in the same session; non-trivial = expressions that carry at least one author id")
     rng = random.Random(res.seed * 1009 + 9)
     obs = generate(res)
     for xml, ids, o in obs:
@@ -245,10 +308,12 @@ def run(res):
                 if n >= 3:
                     break
         n += api_oracle(res, rng)
+        n += reuse_oracle(res, rng)
         return n > 0
     proved = C.check_proofs(res, "C09", ["Props/C09.vo", "Tie/C09Tie.vo"], "Props/C09.v", search=on_broken)
     if proved:
         api_oracle(res, rng)
+        reuse_oracle(res, rng)
     res.trusted += ["a generated id (M + 3 time + 4 random base-36 characters + '-' + n) never equals an author id (different constructors in the model)"]
     res.assumptions += ["that canonicalization keeps an author id on the element carrying the token's text is exercised through set_mathml, not proved (needs the C01 model)",
                         "ids handed out by navigation / bookmarks / routing are checked on the library here and covered by the C11 invariant, the C13 and C20 oracles"]
@@ -260,6 +325,17 @@ def replay(path):
     if not ok:
         print("harness build failed", log)
         return 2
+    if rep.get("kind") == "reuse":
+        r = C.one_session([["set_mathml", rep["mathml"]]] + [["h_set_mathml_reusing_last", m, e] for m, e in rep["steps"]])["res"]
+        bad = 0
+        for x in r[1:]:
+            print(str(x)[:600])
+            if "panic" in x:
+                bad = 1
+            elif "ok" in x:
+                ids = re.findall(r"\bid='([^']*)'", x["ok"][1])
+                bad = bad or int(len(set(ids)) != len(ids))
+        return bad
     op = "v_add_ids_only" if rep.get("kind") == "tree" else "set_mathml"
     if rep.get("kind") not in ("tree", "expr"):
         print("replay names a broken obligation, not an input:", rep.get("what"))
